@@ -213,6 +213,111 @@ theorem C14_dead_endpoint_ends (dt : Rat) (alive : Nat → Bool) (a b : Nat) (d 
     (h : alive a = false ∨ alive b = false) : ageRow dt alive (a, b, d) = none := by
   rcases h with h | h <;> simp [ageRow, h]
 
+/-! ### Stated durations -/
+
+/-- **Source of the durations.** In every duration-carrying class the `dur` column handed to `append` is the class's
+    duration parameter itself — repeated for every new edge when it is a plain number, drawn once per new edge when it is
+    a distribution — and nothing else (no rescaling between parameter and column); `MaternalNet.add_pairs` appends the
+    durations it is given, starting at the given start (default: the network's `ti`) and ending at `start + dur`.
+    (Obligation on the regenerated file: it stops elaborating when any other expression can reach the column.) -/
+theorem C14_source_durations_stated :
+    Gen.durForms = [("RandomNet", ["drawn(dur)", "plain(dur)"]), ("ErdosRenyiNet", ["drawn(dur)", "plain(dur)"]),
+                    ("MFNet", ["drawn(duration)"]), ("MSMNet", ["drawn(duration)"]), ("EmbeddingNet", ["drawn(duration)"])] ∧
+    Gen.matAddForms = ["dur=arg(dur)", "start=arg(start)|ti", "end=start+dur"] := by decide
+
+/-- the column a duration parameter states for `n` new edges is what `add_pairs` writes (`mkCols` with `Choice.withDur`) -/
+theorem C14_stated_duration_column {s : DurPar} {n : Nat} {col : List Rat} (h : s.column n = some col) :
+    (List.range n).map s.durAt = col ∧ col.length = n ∧
+    (∀ d, s = .plain d → col = List.replicate n d) ∧ (∀ ds, s = .drawn ds → col = ds) := by
+  refine ⟨DurPar.map_durAt h, ?_, ?_, ?_⟩
+  · rw [← DurPar.map_durAt h]; simp
+  · intro d hs; subst hs; simpa [DurPar.column] using h.symm
+  · intro ds hs; subst hs
+    simp only [DurPar.column] at h
+    split at h
+    · simpa using h.symm
+    · simp at h
+
+/-- **Stated duration.** One `add_pairs` of a duration-carrying class (RandomNet, ErdosRenyiNet, MFNet, MSMNet,
+    EmbeddingNet; any random choice of endpoints) whose duration parameter states `s`: the table gains exactly the rows
+    `(p1ᵢ, p2ᵢ, colᵢ)` where `col` is the stated column — the parameter itself for a plain number, the i-th draw for a
+    distribution — appended after the existing rows, which are untouched. -/
+theorem C14_stated_duration {n n' : Net} {p : Pop} {c : Choice} {s : DurPar} {a b : List Nat}
+    (hw : n.table.WF) (hd : n.table.keys.dur = true) (hk : n.kind ≠ .disk)
+    (hnp : n.newPairs p c = .ok (some (a, b))) (h : n.addPairsStated p c s = .ok n') :
+    ∃ col, s.column a.length = some col ∧ n'.table.rows = n.table.rows ++ a.zip (b.zip col) ∧
+      n'.table.dur = n.table.dur ++ col := addPairsStated_rows hw hd hk hnp h
+
+/-- … in a whole network update (`end_pairs` with the network's own `dt`, then `add_pairs`): old rows are aged, the new
+    ones carry the stated durations. -/
+theorem C14_stated_duration_step {n n' : Net} {p : Pop} {c : Choice} {s : DurPar} {a b : List Nat} (dt : Rat)
+    (hw : n.table.WF) (hd : n.table.keys.dur = true) (hk : n.kind = .random ∨ n.kind = .erdos)
+    (hnp : { n with table := n.table.endPairs dt p.alive }.newPairs p c = .ok (some (a, b)))
+    (h : n.stepStated p dt c s = .ok n') :
+    ∃ col, s.column a.length = some col ∧
+      n'.table.rows = n.table.rows.filterMap (ageRow dt p.alive) ++ a.zip (b.zip col) := by
+  have hw' : (n.table.endPairs dt p.alive).WF := by
+    have g : ({ n.table with dur := n.table.dur.map (· - dt) } : Table).WF := by
+      obtain ⟨w2, w3, w4, w5, w6, w7⟩ := hw; exact ⟨w2, w3, by simpa using w4, w5, w6, w7⟩
+    exact Table.mask_WF _ _ g
+  have hstep : ({ n with table := n.table.endPairs dt p.alive } : Net).addPairsStated p c s = .ok n' := by
+    unfold Net.stepStated at h
+    rcases hk with hk | hk <;> simpa [hk] using h
+  have hk' : ({ n with table := n.table.endPairs dt p.alive } : Net).kind ≠ .disk := by
+    rcases hk with hk | hk <;> simp [hk]
+  obtain ⟨col, hc, hr, _⟩ := addPairsStated_rows (n := { n with table := n.table.endPairs dt p.alive }) hw' hd hk' hnp hstep
+  exact ⟨col, hc, by rw [hr]; simp only [Table.endPairs_rows]⟩
+
+/-- **Stated duration ⇒ lifetime.** An edge created by a class whose duration parameter is the plain number `D` (in the
+    network's unit) carries `D`, so — its endpoints alive at each of the next `k` updates of the network, whose own
+    timestep is `dt` — it is present after those updates iff `k = 0` or `k < ⌈D/dt⌉`, with remaining duration `D − k·dt`:
+    the lifetime is determined by the PARAMETER and the network's timestep alone. -/
+theorem C14_stated_duration_lifetime (dt : Rat) (hdt : 0 < dt) (D : Rat) {a b : List Nat} {col : List Rat}
+    (hcol : (DurPar.plain D).column a.length = some col) (x y : Nat) (d : Rat) (hmem : (x, y, d) ∈ a.zip (b.zip col))
+    (als : List (Nat → Bool)) (h : ∀ al ∈ als, al x = true ∧ al y = true) :
+    ageRowL dt als (x, y, d) =
+      if als.length = 0 ∨ (als.length : Int) < (D / dt).ceil then some (x, y, D - als.length * dt) else none := by
+  have hd : d = D := by
+    simp only [DurPar.column, Option.some.injEq] at hcol; subst hcol
+    have h2 := (List.of_mem_zip hmem).2
+    exact List.eq_of_mem_replicate (List.of_mem_zip h2).2
+  subst hd
+  exact C14_timed_edges_own_dt dt hdt x y d als h
+
+/-- **Maternal window.** `MaternalNet.add_pairs(mothers, unborn, dur)` at network step `ti` appends edges that start at
+    `ti`, carry the durations they were given and end at `ti + dur`; existing rows are untouched. -/
+theorem C14_maternal_stated_window {t t' : Table} {m u : List Nat} {durs : List Rat} {ti : Rat}
+    (hd : t.keys.dur = true) (hse : t.keys.se = true) (h : t.matAddPairsAt m u durs none ti = .ok t') :
+    t'.p1 = t.p1 ++ m ∧ t'.p2 = t.p2 ++ u ∧ t'.dur = t.dur ++ durs ∧ t'.start = t.start ++ durs.map (fun _ => ti) ∧
+    t'.stop = t.stop ++ durs.map (fun d => ti + d) ∧ t'.beta = t.beta ++ List.replicate m.length 1 :=
+  matAddPairsAt_cols hd hse h
+
+/-- observable part of the result of one `add_pairs` -/
+def durOf : Except Err Net → Option (List Nat × List Nat × List Rat)
+  | .ok n => some (n.table.p1, n.table.p2, n.table.dur)
+  | .error _ => none
+
+/-- a RandomNet with `dur = 5/2`: three new edges, each carrying 5/2 (hypotheses of `C14_stated_duration` are met) -/
+example : durOf ((Net.new .random .spec).addPairsStated (Pop.fresh 3 (fun _ => false) (fun _ => 20))
+      { nOf := fun _ => 1, target := [1, 2, 0] } (.plain (5 / 2))) = some ([0, 1, 2], [1, 2, 0], [5 / 2, 5 / 2, 5 / 2]) := by
+  decide +kernel
+
+/-- a distribution-valued duration: the i-th new edge gets the i-th draw; a draw of the wrong length is rejected -/
+example : durOf ((Net.new .random .spec).addPairsStated (Pop.fresh 3 (fun _ => false) (fun _ => 20))
+      { nOf := fun _ => 1, target := [1, 2, 0] } (.drawn [1 / 3, 7, 2])) = some ([0, 1, 2], [1, 2, 0], [1 / 3, 7, 2]) ∧
+    durOf ((Net.new .random .spec).addPairsStated (Pop.fresh 3 (fun _ => false) (fun _ => 20))
+      { nOf := fun _ => 1, target := [1, 2, 0] } (.drawn [1 / 3, 7])) = none := by
+  constructor <;> decide +kernel
+
+/-- a whole update with stated durations: dt = 1/4, the old edge of remaining duration 1/2 is aged to 1/4, the new ones carry 1 -/
+example : durOf (({ Net.new .random .spec with table := { Table.empty Kind.random.keys with p1 := [0, 1], p2 := [2, 0], beta := [1, 1], dur := [1 / 2, 1 / 4] } }).stepStated
+      (Pop.fresh 3 (fun _ => false) (fun _ => 20)) (1 / 4) { nOf := fun u => if u = 0 then 1 else 0, target := [0] } (.plain 1)) =
+    some ([0, 0], [2, 0], [1 / 4, 1]) := by decide +kernel
+
+/-- maternal edge added at ti = 4 with duration 3: starts at 4, ends at 7 -/
+example : ((Table.empty Kind.maternal.keys).matAddPairsAt [0] [3] [3] none 4).toOption.map (fun t => (t.start, t.stop, t.dur)) =
+    some ([4], [7], [3]) := by decide +kernel
+
 /-! ### Static networks -/
 
 /-- **Static.** After any history the edge list of a StaticNet is a sub-list of the initial one … -/
